@@ -23,6 +23,7 @@ type litmus struct {
 	name       string
 	body       func(out *string)
 	expect     []string
+	crashPrefix bool    // crash outcomes are compared by the expected text's prefix (the recorded text carries a stack)
 	expectMemo []string // if set: what the memo'd search sees (documents the data-race-freedom assumption)
 	bound      int
 }
@@ -69,6 +70,29 @@ var tests = []litmus{
 		inc := func() { mu.Lock(); v := x; vrt.Yield(); x = v + 1; mu.Unlock() }
 		join(inc, inc)
 		*out = fmt.Sprintf("x=%d", x)
+	}},
+	// WaitGroup reuse: a waiter that has been released but has not resumed yet finds the group in use again
+	// (Add from zero) and the real sync.WaitGroup panics; the shim does too.
+	{name: "WaitGroup reused before the previous Wait has returned: the released waiter panics", expect: []string{"waited", "CRASH panic in thread main.1: sync: WaitGroup is reused before previous Wait has returned"}, crashPrefix: true, body: func(out *string) {
+		var wg vsync.WaitGroup
+		wg.Add(1)
+		done := make(chan struct{})
+		vrt.Go(func() { wg.Wait(); *out = "waited"; vrt.Close(done) })
+		wg.Done()
+		wg.Add(1) // the next round starts while the waiter of the previous one may not have resumed
+		wg.Done()
+		vrt.Recv(done)
+	}},
+	{name: "WaitGroup: a second round that starts after the waiter has returned is fine", expect: []string{"waited"}, body: func(out *string) {
+		var wg vsync.WaitGroup
+		wg.Add(1)
+		done := make(chan struct{})
+		vrt.Go(func() { wg.Wait(); *out = "waited"; vrt.Close(done) })
+		wg.Done()
+		vrt.Recv(done)
+		wg.Add(1)
+		wg.Done()
+		wg.Wait()
 	}},
 	// A race on plain memory: the two yields are independent operations, so the
 	// happens-before memo (rightly, for race-free programs) merges the
@@ -319,6 +343,13 @@ func main() {
 						s = "DEADLOCK"
 					case vrt.StCrash:
 						s = "CRASH " + o.Crash
+						if t.crashPrefix {
+							for _, w := range t.expect {
+								if strings.HasPrefix(s, w) {
+									s = w
+								}
+							}
+						}
 					case vrt.StHorizon:
 						s = "HORIZON"
 					}
@@ -341,6 +372,24 @@ func main() {
 			}
 			sort.Strings(want)
 			ok := strings.Join(got, " | ") == strings.Join(want, " | ")
+			if memo && t.expectMemo != nil {
+				// the blind-spot programs: the memo'd search sees at least expectMemo and nothing outside expect
+				in := func(x string, l []string) bool {
+					for _, y := range l {
+						if x == y {
+							return true
+						}
+					}
+					return false
+				}
+				ok = true
+				for _, w := range t.expectMemo {
+					ok = ok && in(w, got)
+				}
+				for _, g := range got {
+					ok = ok && in(g, t.expect)
+				}
+			}
 			if !e.Stats.Exhaustive && !memo {
 				// without the memo the larger ones are capped: then only "no unexpected outcome" is checked
 				ok = true
